@@ -26,7 +26,7 @@ def mesh_topology(n, edges, lengths='equal', style='plain', trx=True):
     sites = list(SITES[:n])
     links = []
     for k, (i, j) in enumerate(edges):
-        if lengths == 'equal':
+        if lengths in ('equal', 'asym'):
             L = 80.0
         elif lengths == 'distinct':
             L = 50.0 + 13.0 * k + 7.0 * ((i * 3 + j) % 4)
@@ -45,7 +45,10 @@ def mesh_topology(n, edges, lengths='equal', style='plain', trx=True):
             if st == 'ila':
                 return [c.fiber(length / 2), c.edfa(), c.fiber(length / 2)]
             return [c.fiber(length / 2), c.fused(0.5), c.fiber(length / 2)]
-        links.append((sites[i], sites[j], ch(L), ch(L)))
+        # 'asym': the two fibres of a link have different lengths (every other link), so that the length order of the
+        # candidate routes differs between a direction and its opposite
+        Lr = L * (0.55 if k % 2 == 0 else 1.6) if lengths == 'asym' else L
+        links.append((sites[i], sites[j], ch(L), ch(Lr)))
     return c.build_topology(sites, links, trx=trx)
 
 
